@@ -226,9 +226,9 @@ func c18vars(log *[]string, empty bool) jet.VarMap {
 
 func c18n(tier string) int {
 	if tier == "thorough" {
-		return 100000
+		return 1000000
 	}
-	return 4000
+	return 20000
 }
 
 func c18run(c *fw.Ctx, idx int) {
